@@ -30,6 +30,7 @@ fn main() {
         if random > 0 {
             e.random::<8>(random / 2);
             e.random::<16>(random / 2);
+            e.random::<70>(random / 20 + 4);
         }
     }
     cx.finish();
